@@ -25,7 +25,9 @@ open Store Spec Collide CollideLemmas StoreLemmas
 
 /-! ### (a) the new model extends the old one -/
 
-/-- the full statement, restarts included (`ExtOK` with `reopen` admitted) — NOT proved.  Without GC and explicit revisions
+/-- the full statement, restarts included (`ExtOK` with `reopen` admitted) — FALSE as written (`SplitCap = 0`:
+    `CollideRstExample.C13_statement_false`); PROVED for `SplitCap ≥ 1` and histories without GC requests
+    (`C13_collide_extends_store_restarts`, Lemmas/CollideRst.lean).  The original note:  Without GC and explicit revisions
     the restart case follows from (b) (`tree_final`: for a hash with one key in use the slot after the hint loop is that
     key's last record); what is missing is to carry the hint invariants of `RInv` through the GC pass and to compare exact
     version numbers with `Store.step … (.reopen _)` (`replayTree` / the kept tree) -/
